@@ -1667,13 +1667,13 @@ register("C03", run_C03, ["C03.C03_viable"])
 register("C04", run_C04, ["C04.C04_setAction_ok_iff", "C04.C04_setAction_fresh", "C04.C04_ok_conflict_free", "C04.C04_conflict_genuine"])
 register("C05", run_C05, ["C05.C05_fresh"])
 register("C06", run_C06, ["C06.C06_items_and_signature"])
-register("C07", run_C07, ["C07.bracketScan_no_panic", "C07.C07_handleMain_no_panic"])
+register("C07", run_C07, ["C07.bracketScan_no_panic", "C07.C07_handleMain_no_panic", "C07.C07_tokenize_total", "C07.C07_parse_no_panic", "C07.C07_cst_to_ast_total"])
 register("C08", run_C08, ["C08.C08_scan_total", "C08.C08_double_colon", "C08.C08_tokenize_eq_spec", "C08.C08_tokenize_total"])
 register("C09", run_C09, ["C09.C09_kinds", "C09.C09_nonterminals", "C09.C09_rule_numbering", "C09.C09_reduce_arms", "C09.C09_table_valid", "C09.C09_parse_correct", "C09.C09_flatten"])
 register("C10", run_C10, ["C10.C10_one_start_one_terminal", "C10.C10_ok_sound"])
 register("C11", run_C11, ["C11.C11_setAction_conflict", "C11.C11_payload"])
-register("C12", run_C12, ["C12.C12_emit"])
-register("C13", run_C13, ["C13.C13_use_sites"])
+register("C12", run_C12, ["C12.C12_emit", "C12.C12_token", "C12.C12_order"])
+register("C13", run_C13, ["C13.C13_use_sites", "C13.C13_type_order"])
 register("C14", run_C14, ["C14.C14_ofList_perm", "C14.C14_table_order_independent"])
 register("C15", run_C15, ["C15.C15_spec", "C15.C15_roundtrip", "C15.C15_fresh"])
 register("C16", run_C16, ["C16.C16_skip_whitespace"])
